@@ -3,12 +3,12 @@ import json, os
 from .. import core
 
 PROOF = "Props/C11.v"
-RUN_FILES = ["Run/CodeMapRun.v"]
+RUN_FILES = ["Run/CodeMapRun.v", "Run/LebRun.v"]
 CORR_NAME = "CodeMap model (over parseM/emitM and the Emit visitor model) vs. the CodeTransform real walrus hands to a recording custom section"
 ASSUMPTIONS = [
     "Model/CodeMap.v is a hand-written model of the tail of ModuleFunctions::emit (BTreeMap fill, function ranges, code_section_start); positions inside a body come from Model/EmitFn.v (checked by C03/C15); the models are tied to the code by comparing the CodeTransform observed through CustomSection::apply_code_transform on every case (this run)",
     "byte lengths of instructions are wasm-encoder's: the model runs with unit lengths and the harness translates every reported absolute offset into (function, operator ordinal) using an independent decode of the output; offsets that are not the start of an operator cannot be translated and are reported",
-    "the layout of a code section (count, then size-prefixed bodies) and LEB128 lengths are modelled (leb_len)",
+    "the layout of a code section (count, then size-prefixed bodies) and LEB128 lengths are modelled (leb_len); LEB128 itself is modelled byte by byte (Model/Leb.v: round trip, prefix-freeness, length = leb_len proved in Proofs/Leb.v) and compared with wasm-encoder's bytes and wasmparser's reader on every group-count boundary and random values (unsigned and signed) in this run",
 ]
 
 
@@ -22,7 +22,7 @@ def correspondence(ctx, thorough, search, prop="C11", sub=""):
     results, errors = core.coq_eval(out)
     dis = [{"file": f, "coq_error": msg[-400:]} for f, msg in errors.items()]
     n_eval = 0
-    names = {21: "instruction map differs", 22: "function ranges differ", 23: "code_section_start differs", 2: "model rejects", 3: "model panics"}
+    names = {21: "instruction map differs", 22: "function ranges differ", 23: "code_section_start differs", 2: "model rejects", 3: "model panics", 31: "LEB128 unsigned bytes differ from wasm-encoder", 32: "LEB128 unsigned read-back differs (model / wasmparser)", 33: "leb_len differs from the encoded length", 34: "leb5 differs from the encoded length", 35: "LEB128 signed bytes differ from wasm-encoder", 36: "LEB128 signed read-back differs (model / wasmparser)"}
     for f, codes in results.items():
         n_eval += len(codes)
         for i, c in enumerate(codes):
@@ -34,6 +34,6 @@ def correspondence(ctx, thorough, search, prop="C11", sub=""):
     cov = {"evaluations": meta["cases"], "distinct_nontrivial": meta["cases"],
            "rule": "corpus + all fixtures + body-rich generated modules (nested blocks/loops/ifs with and without else, dead code, nops) + modules with 130 and 16390 function bodies (2- and 3-byte count LEB); each emitted with preserve_code_transform three times: unchanged, after the GC pass, and after inserting marker instructions at random positions through the builder API; every pair, every function range and code_section_start compared with the independently decoded output",
            "samples": meta["samples"], "traces_validated_against_impl": n_eval,
-           "input_distribution": {k: meta[k] for k in ("inputs", "corpus", "fixtures", "generated", "after_gc", "with_inserted_instructions", "pairs_checked", "function_ranges_checked", "outside_modelled_universe")},
+           "input_distribution": {k: meta[k] for k in ("leb_cases", "inputs", "corpus", "fixtures", "generated", "after_gc", "with_inserted_instructions", "pairs_checked", "function_ranges_checked", "outside_modelled_universe")},
            "exhaustive": False}
     return {"disagreements": dis, "oracle_violations": ov, "coverage": cov}
